@@ -48,6 +48,14 @@ func Run(c *common.Ctx) error {
 			{Op: "wtx", Frames: [][2]uint64{{2, 22}, {5, 25}}, NewSize: 5},
 			{Op: "wabort", Aborted: [][2]uint64{{1, 91}}, Split: true, CkptMode: 1},
 			{Op: "wtx", Frames: [][2]uint64{{4, 34}}, NewSize: 5}},
+		// a transaction that spills a page and then shrinks the database below it (auto-vacuum): the page is part of
+		// the log but not of the database the transaction leaves
+		{{Op: "rtx", Writes: map[uint32]uint64{1: 1, 2: 2, 3: 3, 4: 4, 5: 5, 6: 6, 7: 7, 8: 8}, NewSize: 8, ToWAL: true},
+			{Op: "wtx", Frames: [][2]uint64{{8, 18}, {2, 12}, {1, 11}}, NewSize: 6},
+			{Op: "wtx", Frames: [][2]uint64{{9, 29}, {3, 23}}, NewSize: 5},
+			{Op: "wtx", Frames: [][2]uint64{{6, 36}, {7, 37}, {8, 38}}, NewSize: 8},
+			{Op: "appckpt", CkptMode: 2},
+			{Op: "wtx", Frames: [][2]uint64{{2, 42}}, NewSize: 8}},
 	}
 	for si, script := range scripts {
 		for _, be := range []bool{false, true} {
